@@ -238,6 +238,10 @@ package vm
 //@   ensures run.same: vm.environment == old(vm.environment) && vm.constants === old(vm.constants) && vm.functions == old(vm.functions) && vm.context == old(vm.context)
 //@   ensures run.env: (err == nil ==> vm.fields != nil && fresh(vm.fields)) && vm.environment.global != nil && scopesOK(vm.environment)
 //@   ensures run.result: err == nil ==> validObj(result)
+//@   ensures @C07 run.frame.stacks: forall s *stack.Stack :: existed(s) && s != old(vm.stack) ==> s.entries === old(s.entries)
+//@   ensures @C07 run.frame.rows: forall a ref :: existed(a) && a != old(arr(vm.stack.entries)) ==> objRowUnchanged(a)
+//@   ensures @C07 run.bytecode: vm.bytecode === old(vm.bytecode) && vm.stack == old(vm.stack)
+//@   ensures @C06 @C07 run.scopes.len: err == nil ==> len(vm.environment.local) == old(len(vm.environment.local))
 //@   panics maybe
 //@ loop 1 invariant run.inv.ip: 0 <= ip
 //@ loop 1 invariant run.inv.ln: ln == len(vm.bytecode)
@@ -252,10 +256,16 @@ package vm
 //@ loop 2 invariant @C16 arr.inv.order: len(elements) == atloop(1, operand(vm, ip)) && depth(vm) == atloop(1, depth(vm)) - (len(elements) - opArg)
 //@            && (forall j in opArg..len(elements) :: elements[j] === atloop(1, S(vm)[depth(vm) - operand(vm, ip) + j]))
 //@            && (forall j in 0..depth(vm) :: S(vm)[j] === atloop(1, S(vm)[j]))
+//@ loop 2 invariant arr.inv.frame: runFrame(vm)
 //@ loop 2 decreases @C09 opArg
 //@ loop 3 invariant hash.inv: vmOK(vm) && fresh(vm.stack.entries) && vm.stack == entry(vm.stack) && hashedPairs != nil
+//@ loop 3 invariant hash.inv.frame: runFrame(vm)
 //@ loop 3 decreases @C09 opArg - i
 //@ loop 4 invariant call.inv: 0 <= opArg && opArg <= len(fnArgs) && vmOK(vm) && fresh(fnArgs) && fresh(vm.stack.entries) && vm.stack == entry(vm.stack) && arr(fnArgs) != arr(vm.stack.entries)
+//@ loop 4 invariant call.inv.frame: runFrame(vm)
+//@ loop 4 invariant @C20 call.inv.order: len(fnArgs) == atloop(1, operand(vm, ip)) && depth(vm) == atloop(1, depth(vm)) - 1 - (len(fnArgs) - opArg)
+//@            && (forall j in opArg..len(fnArgs) :: fnArgs[j] === atloop(1, S(vm)[depth(vm) - 1 - operand(vm, ip) + j]) && validObj(fnArgs[j]))
+//@            && (forall j in 0..depth(vm) :: S(vm)[j] === atloop(1, S(vm)[j]))
 //@ loop 4 decreases @C09 opArg
 // OpRange: elements[0..i) are the integers lo, lo+1, ...
 //@ loop 6 invariant range.inv.i: 0 <= i && i <= l && l == len(elements)
@@ -263,6 +273,7 @@ package vm
 //@ loop 6 invariant range.inv.good: forall j in 0..i :: validObj(elements[j])
 //@ loop 6 invariant @C16 range.inv.values: forall j in 0..i :: isInt(elements[j]) && ival(elements[j]) == minI + j
 //@ loop 6 decreases @C09 l - i
+//@ loop 1 invariant @C07 run.inv.frame: runFrame(vm)
 //@ loop 1 invariant run.inv.fieldsfresh: fresh(vm.fields)
 //@ loop 1 invariant run.inv.stackfresh: fresh(vm.stack.entries)
 //@ loop 1 step @C02 step.nop: (op == code.OpNop || op == code.OpPlaceholder) ==> ip == old(ip) + 1 && stackSame(vm)
@@ -299,6 +310,41 @@ package vm
 //@            ==> ip == old(ip) + 1 && replaced2(vm) && isArray(top(vm)) && fresh(top(vm)) && len(elems(top(vm))) == old(ival(T1(vm))) - old(ival(T2(vm))) + 1
 //@            && forall j in 0..len(elems(top(vm))) :: isInt(elems(top(vm))[j]) && ival(elems(top(vm))[j]) == old(ival(T2(vm))) + j
 //@ loop 1 exit @C16 @C01 exit.range.bad: op == code.OpRange && old(depth(vm)) >= 2 && (!isInt(T2(vm)) || !isInt(T1(vm)) || old(ival(T2(vm))) > old(ival(T1(vm)))) ==> err != nil
+// indexing (same cells as executeIndexExpression, over the two operands on the stack)
+//@ loop 1 step @C16 @C01 step.index.array.in: op == code.OpIndex && old(depth(vm)) >= 2 && isArray(T2(vm)) && isInt(T1(vm)) && 0 <= old(ival(T1(vm))) && old(ival(T1(vm))) < old(len(elems(T2(vm))))
+//@            ==> ip == old(ip) + 1 && replaced2(vm) && top(vm) === old(elems(T2(vm))[ival(T1(vm))])
+//@ loop 1 step @C16 @C01 step.index.array.out: op == code.OpIndex && old(depth(vm)) >= 2 && isArray(T2(vm)) && isInt(T1(vm)) && (old(ival(T1(vm))) < 0 || old(ival(T1(vm))) >= old(len(elems(T2(vm)))))
+//@            ==> ip == old(ip) + 1 && replaced2(vm) && topNull(vm)
+//@ loop 1 step @C16 @C01 step.index.string.in: op == code.OpIndex && old(depth(vm)) >= 2 && isStr(T2(vm)) && isInt(T1(vm)) && 0 <= old(ival(T1(vm))) && old(ival(T1(vm))) < runeCount(old(sval(T2(vm))))
+//@            ==> ip == old(ip) + 1 && replaced2(vm) && topStr(vm, strFromRune(runesOf(old(sval(T2(vm))))[old(ival(T1(vm)))]))
+//@ loop 1 step @C16 @C01 step.index.string.out: op == code.OpIndex && old(depth(vm)) >= 2 && isStr(T2(vm)) && isInt(T1(vm)) && (old(ival(T1(vm))) < 0 || old(ival(T1(vm))) >= runeCount(old(sval(T2(vm)))))
+//@            ==> ip == old(ip) + 1 && replaced2(vm) && topNull(vm)
+//@ loop 1 step @C16 @C01 step.index.hash.found: op == code.OpIndex && old(depth(vm)) >= 2 && isHash(T2(vm)) && hashable(T1(vm)) && old(has(pairs(T2(vm)), hk(T1(vm))))
+//@            ==> ip == old(ip) + 1 && replaced2(vm) && top(vm) === old(pairs(T2(vm))[hk(T1(vm))].Value)
+//@ loop 1 step @C16 @C01 step.index.hash.absent: op == code.OpIndex && old(depth(vm)) >= 2 && isHash(T2(vm)) && hashable(T1(vm)) && !old(has(pairs(T2(vm)), hk(T1(vm))))
+//@            ==> ip == old(ip) + 1 && replaced2(vm) && topNull(vm)
+//@ loop 1 step @C16 @C01 step.index.bad: op == code.OpIndex && old(depth(vm)) >= 2 && ((isHash(T2(vm)) && !hashable(T1(vm))) || ((isArray(T2(vm)) || isStr(T2(vm))) && !isInt(T1(vm))) || (!isArray(T2(vm)) && !isStr(T2(vm)) && !isHash(T2(vm)))) ==> false
+// iteration
+//@ loop 1 step @C02 @C06 step.iterreset: op == code.OpIterationReset && old(depth(vm)) >= 1 && (isArray(T1(vm)) || isStr(T1(vm)) || isHash(T1(vm)))
+//@            ==> ip == old(ip) + 1 && replaced1(vm) && top(vm) === T1(vm) && iterOffset(T1(vm)) == 0
+//@            && len(locals(vm)) == old(len(locals(vm))) + 1 && (forall i in 0..old(len(locals(vm))) :: locals(vm)[i] == old(locals(vm)[i])) && len(locals(vm)[old(len(locals(vm)))]) == 0 && fresh(locals(vm)[old(len(locals(vm)))])
+//@ loop 1 step @C02 step.iterreset.bad: op == code.OpIterationReset && old(depth(vm)) >= 1 && !(isArray(T1(vm)) || isStr(T1(vm)) || isHash(T1(vm))) ==> false
+//@ loop 1 step @C02 @C16 step.iternext.array.more: op == code.OpIterationNext && old(depth(vm)) >= 3 && isArray(T3(vm)) && 0 <= old(iterOffset(T3(vm))) && old(iterOffset(T3(vm))) < old(len(elems(T3(vm))))
+//@            ==> ip == old(ip) + 1 && depth(vm) == old(depth(vm)) - 1 && keptBelow(vm, 3) && topBool(vm, true) && S(vm)[depth(vm) - 2] === T3(vm) && iterOffset(T3(vm)) == old(iterOffset(T3(vm))) + 1
+//@ loop 1 step @C02 @C16 step.iternext.array.done: op == code.OpIterationNext && old(depth(vm)) >= 3 && isArray(T3(vm)) && old(iterOffset(T3(vm))) >= old(len(elems(T3(vm)))) && old(len(locals(vm))) > 0
+//@            ==> ip == old(ip) + 1 && depth(vm) == old(depth(vm)) - 2 && keptBelow(vm, 3) && topBool(vm, false) && locals(vm) === old(locals(vm))[:old(len(locals(vm))) - 1]
+// ++ and --: the named variable gets a number one greater/smaller, one value is dropped from the stack,
+// and no literal of the script changes (C15/C07)
+//@ loop 1 step @C15 @C07 step.inc.pool: (op == code.OpInc || op == code.OpDec) ==> forall k in 0..len(vm.constants) :: vm.constants[k] === old(vm.constants[k]) && (isInt(vm.constants[k]) ==> ival(vm.constants[k]) == old(ival(vm.constants[k]))) && (isFloat(vm.constants[k]) ==> fval(vm.constants[k]) === old(fval(vm.constants[k])))
+//@ loop 1 step @C15 step.inc.stack: (op == code.OpInc || op == code.OpDec) ==> ip == old(ip) + 3 && popped1(vm)
+// calls
+//@ loop 1 step @C20 step.call.host: op == code.OpCall && old(depth(vm)) >= old(operand(vm, ip)) + 1 && isStr(T1(vm)) && old(has(vm.environment.functions, sval(T1(vm))))
+//@            ==> ip == old(ip) + 3 && ncalls() == old(ncalls()) + 1 && callfn(old(ncalls())) == funcval(old(vm.environment.functions[sval(T1(vm))]))
+//@            && len(callargs(old(ncalls()))) == old(operand(vm, ip)) && (forall j in 0..old(operand(vm, ip)) :: callargs(old(ncalls()))[j] === old(S(vm)[depth(vm) - 1 - operand(vm, ip) + j]))
+//@            && keptBelow(vm, old(operand(vm, ip)) + 1) && (depth(vm) == old(depth(vm)) - old(operand(vm, ip)) - 1 || (depth(vm) == old(depth(vm)) - old(operand(vm, ip)) && !isVoid(top(vm))))
+//@ loop 1 step @C06 @C07 step.call.user: op == code.OpCall && old(depth(vm)) >= old(operand(vm, ip)) + 1 && isStr(T1(vm)) && !old(has(vm.environment.functions, sval(T1(vm))))
+//@            ==> ip == old(ip) + 3 && keptBelow(vm, old(operand(vm, ip)) + 1) && (depth(vm) == old(depth(vm)) - old(operand(vm, ip)) - 1 || (depth(vm) == old(depth(vm)) - old(operand(vm, ip)) && !isVoid(top(vm))))
+//@            && old(has(vm.functions, sval(T1(vm)))) && len(old(vm.functions[sval(T1(vm))]).Arguments) == old(operand(vm, ip))
 // operators: the arm delegates to the operator functions
 //@ loop 1 step @C01 step.binop.ip: isBinop(op) ==> ip == old(ip) + 1
 //@ loop 1 inherit vm.(*VM).executeBinaryOperation when isBinop(op)
